@@ -14,6 +14,7 @@ from hypothesis import strategies as st
 
 NAME_POOL = ['0', '1', '2', '3', '9', '10', 'a', 'aa', 'A', 'b', 'PO', 'Final05', 'ceilo 7',
              'ceilometer-with-a-rather-long-name-0123456789', 'zürich', 'Ω']
+CONFUSABLE = ['a', 'aa', 'aaa', '1', '10', '11', '0', '00', '9']
 SPANS = [0.5, 60.0, 900.0, 900.0, 900.0, 3600.0, 86400.0]
 
 
@@ -30,7 +31,8 @@ def grid(draw, n_ceilos=(1, 4), n_t=(3, 40), names=None, span=None):
     """ -> list of (ceilo, dt) measurements, unique by construction. """
     nc = draw(st.integers(*n_ceilos))
     if names is None:
-        names = draw(st.lists(st.sampled_from(NAME_POOL), min_size=nc, max_size=nc, unique=True))
+        pool = CONFUSABLE if draw(st.integers(0, 9)) < 4 else NAME_POOL
+        names = draw(st.lists(st.sampled_from(pool), min_size=nc, max_size=nc, unique=True))
     if span is None:
         span = draw(st.sampled_from(SPANS))
     mode = draw(st.sampled_from(['coincident', 'offset', 'unequal', 'irregular']))
@@ -283,7 +285,7 @@ def scene_many_slices(draw):
     gap = draw(st.sampled_from([120, 130]))
     rows = []
     for i in range(60):
-        rows.append(['A', -900.0 + i * 10, float(lo + (gap if i % 2 else 0)), 1])
+        rows.append(['A', -900.0 + i * 2, float(lo + (gap if i % 2 else 0)), 1])
     for j in range(nsing):
         rows.append(['B', -900.0 + j * 5 + 1, float(2000 + 400 * j), 1])
     return {'cls': 'many_slices', 'rows': rows,
@@ -518,14 +520,18 @@ def base_prms(draw, case, exclude=True, p_default=0.3):
         st.sampled_from([0, 5, 5, 10, 50, 95, 100]), st.integers(0, 100),
         st.floats(0, 100, allow_nan=False).map(lambda x: round(x, 3))))
     out['BASE_LVL_LOOKBACK_PERC'] = draw(st.one_of(
-        st.sampled_from([100, 100, 50, 30, 10, 75]), st.integers(1, 100),
+        st.sampled_from([100, 50, 30, 10, 75]), st.integers(1, 100),
         st.floats(0.5, 100, allow_nan=False).map(lambda x: round(x, 2))))
     if exclude:
         names = sorted(set(r[0] for r in case['rows']))
-        kind = draw(st.sampled_from(['none', 'none', 'some', 'some', 'all', 'absent']))
+        kind = draw(st.sampled_from(['none', 'none', 'some', 'some', 'some', 'all', 'absent']))
         if kind == 'some':
-            out['EXCLUDE_FOR_BASE_HEIGHT_CALC'] = sorted(draw(st.sets(st.sampled_from(names),
-                                                                      min_size=1)))
+            sub = sorted(draw(st.sets(st.sampled_from(names), min_size=1,
+                                      max_size=max(1, len(names) - 1))))
+            # sometimes name a longer, absent instrument whose name contains a present one
+            if draw(st.integers(0, 9)) < 3:
+                sub = [sub[0] + sub[0]] + sub[1:]
+            out['EXCLUDE_FOR_BASE_HEIGHT_CALC'] = sub
         elif kind == 'all':
             out['EXCLUDE_FOR_BASE_HEIGHT_CALC'] = list(names)
         elif kind == 'absent':
@@ -537,7 +543,7 @@ def base_prms(draw, case, exclude=True, p_default=0.3):
 def lowess_prms(draw):
     if draw(st.booleans()):
         return {}
-    return {'LOWESS': {'frac': draw(st.sampled_from([0.1, 0.2, 0.35, 0.5, 0.75, 1.0])),
+    return {'LOWESS': {'frac': draw(st.sampled_from([0.001, 0.01, 0.05, 0.1, 0.2, 0.35, 0.5, 0.75, 1.0])),
                        'it': draw(st.integers(0, 6))}}
 
 
@@ -619,7 +625,8 @@ def merge_dict(a, b):
 
 @st.composite
 def pipeline_case(draw, weights, vary=('msa', 'okta', 'sep', 'base', 'lowess', 'algo'),
-                  anomalies=False, exclude=True, p_default_prms=0.25, global_modes=False):
+                  anomalies=False, exclude=True, p_default_prms=0.25, global_modes=False,
+                  base_p_default=0.3):
     """ A scene plus a parameter set. """
     case = draw(scene(weights))
     if anomalies and draw(st.integers(0, 9)) < 3:
@@ -634,7 +641,7 @@ def pipeline_case(draw, weights, vary=('msa', 'okta', 'sep', 'base', 'lowess', '
             hint = (case.get('hint') or {}).get('min_sep')
             prms = merge_dict(prms, draw(sep_prms(hint)))
         if 'base' in vary:
-            prms = merge_dict(prms, draw(base_prms(case, exclude=exclude)))
+            prms = merge_dict(prms, draw(base_prms(case, exclude=exclude, p_default=base_p_default)))
         if 'lowess' in vary:
             prms = merge_dict(prms, draw(lowess_prms()))
         if 'algo' in vary:
@@ -651,3 +658,27 @@ def pipeline_case(draw, weights, vary=('msa', 'okta', 'sep', 'base', 'lowess', '
     if global_modes and draw(st.integers(0, 9)) < 2:
         out['gprms'] = draw(global_height_mode())
     return out
+
+
+@st.composite
+def ulp_jitter(draw, case, p=3):
+    """ Move some distinct height values to their floating-point neighbours (coding boundaries). """
+    if draw(st.integers(0, 9)) >= p:
+        return case
+    hs = heights_of(case)
+    if not hs:
+        return case
+    chosen = draw(st.lists(st.sampled_from(hs), min_size=1, max_size=3, unique=True))
+    mp = {}
+    for h in chosen:
+        up = draw(st.booleans())
+        mp[h] = math.nextafter(h, math.inf if up else -math.inf)
+        if mp[h] < 0:
+            mp[h] = h
+    new = dict(case)
+    rows = [[r[0], r[1], mp.get(r[2], r[2]), r[3]] for r in case['rows']]
+    # a jittered value may collide with a neighbour only if both were in the frame: re-check dups
+    if len(set((r[0], r[1], r[2], r[3]) for r in rows)) == len(rows):
+        new['rows'] = rows
+        new['ulp'] = True
+    return new
